@@ -49,7 +49,7 @@ def install_sensor_probe():
 
     def before(self, estimate_eci, target_agent, background_agents, *a, **k):
         return {"sensor": view(self), "estimate": np.array(estimate_eci, dtype=float).copy(), "primary": tview(target_agent), "background": [tview(t) for t in background_agents],
-                "direct": bool(probes.STATE.get("direct"))}
+                "direct": probes.STATE.get("direct") or False}
 
     def after(self, tok, res, *a, **k):
         obs, missed, boresight, tlt = res
@@ -130,7 +130,9 @@ class C02(Check):
         if rng.random() < 0.6:
             for _ in range(rng.randrange(1, 9)):
                 direct.append({"sensor": rng.random(), "target": rng.random(), "pointing": rng.choice(["truth", "truth", "near", "near", "other", "far"]),
-                               "offset": [rng.gauss(0, 1) for _ in range(3)], "scale": rng.choice([0.2, 1.0, 3.0]), "background": rng.random() < 0.7})
+                               "offset": [rng.gauss(0, 1) for _ in range(3)], "scale": rng.choice([0.2, 1.0, 3.0]), "background": rng.random() < 0.7,
+                               # prior mount state, set the way the engine sets it after a tasking: seconds since the last tasking and where it was left
+                               "preset": None if rng.random() < 0.3 else {"since": rng.choice([0.0, 1.0, 60.0, 600.0, 1e5]), "boresight": rng.choice([None, [rng.gauss(0, 1) for _ in range(3)]])}})
         return {"config": cfg, "plan": [{"seconds": ncfg * step}], "schedule": {"name": "seeded", "seed": rng.randrange(2**31)}, "job_seed": rng.randrange(2**31),
                 "noise": rng.choice(["off", "off", "on"]), "direct": direct}
 
@@ -179,6 +181,8 @@ class C02(Check):
                         del pending[sid0]
                 if r.get("direct"):
                     cnt["direct_taskings"] = cnt.get("direct_taskings", 0) + 1
+                    if r["direct"] == "preset":      # the harness set the prior mount state itself
+                        book.pop(sen["id"], None)
                 if sen["id"] in book:
                     ok_state = any(float(np.linalg.norm(np.asarray(b) - sen["boresight"])) <= 1e-9 and abs(t - sen["last_tasked"]) <= 1e-9 for b, t in book[sen["id"]])
                     if not ok_state:
@@ -316,6 +320,12 @@ class C02(Check):
                 if float(np.linalg.norm(point[:3])) < 1.0:
                     point = truth.copy()
                 background = [t for t in targets if t is not tgt] if d["background"] else []
+                probes.STATE["direct"] = "preset" if d.get("preset") else True
+                if d.get("preset"):
+                    sa.sensors.time_last_tasked = type(sa.sensors.time_last_tasked)(float(sa.time) - d["preset"]["since"])
+                    if d["preset"]["boresight"] is not None:
+                        b = np.asarray(d["preset"]["boresight"], dtype=float)
+                        sa.sensors.boresight = b / (np.linalg.norm(b) or 1.0)
                 sa.sensors.collectObservations(point, tgt, background)
         finally:
             probes.STATE["direct"] = False
